@@ -1,7 +1,9 @@
 package main
 
 import (
+	"bufio"
 	"bytes"
+	"sort"
 	"fmt"
 	"io"
 	"os"
@@ -257,6 +259,8 @@ func protoBad(r *RNG, keys []string) []byte {
 	}
 }
 
+var mutRNG *RNG
+
 func protoRun(c *Ctx, id string, cfg protoCfg, stream []byte, home string) {
 	os.RemoveAll(home)
 	os.MkdirAll(home, 0o755)
@@ -312,6 +316,10 @@ func protoRun(c *Ctx, id string, cfg protoCfg, stream []byte, home string) {
 			res += " ERR"
 		}
 		c.line("step n=%d close=%d led=%s%s => %s", after-before, cl2, ledger(), res, hx(conn.out.Bytes()))
+		if steps%3 == 0 {
+			out := append([]byte{}, conn.out.Bytes()...)
+			protoRResp(c, out)
+		}
 		if e != nil {
 			break
 		}
@@ -321,6 +329,123 @@ func protoRun(c *Ctx, id string, cfg protoCfg, stream []byte, home string) {
 	guard(func() { hs.Close() })
 	c.line("end")
 	os.RemoveAll(home)
+}
+
+// ---- the client side of the wire and the parser in isolation: Request.Write, Request.Read, Response.Read ----
+
+func fmtReq(req *mc.Request, err error, consumed int) string {
+	if err != nil {
+		return fmt.Sprintf("ERR %s n=%d", strings.ReplaceAll(err.Error(), " ", "_"), consumed)
+	}
+	var ks []string
+	for _, k := range req.Keys {
+		ks = append(ks, hx([]byte(k)))
+	}
+	flag, exp, cas, body := 0, 0, 0, "-"
+	if req.Item != nil {
+		flag, exp, cas, body = req.Item.Flag, req.Item.Exptime, req.Item.Cas, hx(req.Item.Body)
+	}
+	nr := 0
+	if req.NoReply {
+		nr = 1
+	}
+	return fmt.Sprintf("OK n=%d cmd=%s keys=%s flag=%d exptime=%d cas=%d body=%s noreply=%d", consumed, hx([]byte(req.Cmd)), strings.Join(ks, ","), flag, exp, cas, body, nr)
+}
+
+// protoWire: serialise a structured request with the real Request.Write, parse the bytes back with the real
+// Request.Read (followed by unrelated bytes), and parse reply bytes with the real Response.Read
+func protoWire(c *Ctx, r *RNG, keys []string) {
+	mc.InitTokens()
+	k := keys[r.Intn(len(keys))]
+	req := &mc.Request{}
+	switch r.Intn(9) {
+	case 0:
+		req.Cmd, req.Keys = []string{"get", "gets"}[r.Intn(2)], []string{k}
+	case 1:
+		req.Cmd, req.Keys = "get", []string{k, keys[r.Intn(len(keys))], "?" + k}
+	case 2, 3:
+		req.Cmd = []string{"set", "add", "replace", "append", "prepend"}[r.Intn(5)]
+		req.Keys = []string{k}
+		req.Item = &mc.Item{Flag: r.Intn(1000), Exptime: r.Intn(20)}
+		req.Item.Body = protoValue(r)
+		req.NoReply = r.Chance(30)
+	case 4:
+		req.Cmd, req.Keys = "cas", []string{k}
+		req.Item = &mc.Item{Flag: r.Intn(1000), Exptime: r.Intn(20), Cas: r.Intn(100000)}
+		req.Item.Body = protoValue(r)
+		req.NoReply = r.Chance(30)
+	case 5:
+		req.Cmd, req.Keys = "delete", []string{k}
+		req.NoReply = r.Chance(30)
+	case 6:
+		req.Cmd, req.Keys = []string{"incr", "decr"}[r.Intn(2)], []string{k}
+		req.Item = &mc.Item{}
+		req.Item.Body = []byte(strconv.Itoa(r.Intn(100000) - 500))
+		req.NoReply = r.Chance(30)
+	case 7:
+		req.Cmd = []string{"version", "quit", "flush_all", "stats"}[r.Intn(4)]
+	default:
+		req.Cmd, req.Keys = "stats", []string{"cmd_get", "cmd_set"}
+	}
+	var buf bytes.Buffer
+	werr := req.Write(&buf)
+	c.line("wreq %s => %s", strings.TrimPrefix(fmtReq(req, nil, 0), "OK n=0 "), hx(buf.Bytes()))
+	c.count("wire.wreq")
+	if werr == nil {
+		tail := []byte("get zz\r\n")
+		in := append(append([]byte{}, buf.Bytes()...), tail...)
+		rd := bufio.NewReader(bytes.NewReader(in))
+		back := &mc.Request{}
+		err := back.Read(rd)
+		c.line("rreq %s => %s", hx(in), fmtReq(back, err, len(in)-rd.Buffered()))
+		if back.Item != nil {
+			cmem.DBRL.SetData.SubSizeAndCount(back.Item.CArray.Cap)
+			back.Item.CArray.Free()
+		}
+		if back.Working {
+			mc.RL.Put(back)
+		}
+		if back.Cmd == "incr" || back.Cmd == "decr" {
+			cmem.DBRL.SetData.SubCount(1)
+		}
+		c.count("wire.rreq")
+	}
+}
+
+func protoRResp(c *Ctx, out []byte) {
+	if len(out) == 0 {
+		return
+	}
+	resp := new(mc.Response)
+	rd := bufio.NewReader(bytes.NewReader(out))
+	var err error
+	p := guard(func() { err = resp.Read(rd) })
+	var res string
+	switch {
+	case p != "":
+		res = "PANIC"
+	case err != nil:
+		res = "ERR"
+	default:
+		var keys []string
+		for k := range resp.Items {
+			keys = append(keys, k)
+		}
+		sort.Strings(keys)
+		var items []string
+		for _, k := range keys {
+			it := resp.Items[k]
+			items = append(items, fmt.Sprintf("%s:%d:%d:%s", hx([]byte(k)), it.Flag, it.Cas, hx(it.Body)))
+		}
+		is := "-"
+		if len(items) > 0 {
+			is = strings.Join(items, ",")
+		}
+		res = fmt.Sprintf("OK rest=%d status=%s msg=%s items=%s", rd.Buffered(), hx([]byte(resp.Status)), hx([]byte(resp.Msg)), is)
+		resp.CleanBuffer()
+	}
+	c.line("rresp %s => %s", hx(out), res)
+	c.count("wire.rresp")
 }
 
 func engineProto(c *Ctx) {
@@ -395,6 +520,11 @@ func engineProto(c *Ctx) {
 		} else {
 			c.count("stream.grammatical")
 		}
+		mutRNG = r.Fork(31)
 		protoRun(c, fmt.Sprintf("%d-%d", c.seed, ci), cfg, stream, filepath.Join(base, fmt.Sprintf("case%d", ci)))
+		mutRNG = nil
+		for i := 0; i < 6; i++ {
+			protoWire(c, r, keys)
+		}
 	}
 }
